@@ -248,6 +248,8 @@ def truncation_family(rng, valid, domain, prev=None):
         return valid[:max(12, n - rng.randrange(1, 16))]
     m = D.parse(valid)
     labels = m.qd[0][0] if m.qd else [b"vaaaa"] + D.name_to_labels(domain)
+    if not labels or not labels[0]:
+        labels = [b"vaaaa"] + D.name_to_labels(domain)
     qt = m.qd[0][1] if m.qd else 10
     head = hdr(rng.randrange(1, 65536), 0x0100, 1)
     if k == 5:      # first label announces more bytes than the datagram holds
